@@ -323,7 +323,10 @@ func specKInput(st int, n uint8) int {
 //@ func truncatedHash.Sum
 //@ props C01 C03
 //@ requires [trunc.inner] !isnil(t.Hash) && t.length >= 0 && t.length <= hSizeOf(t.Hash)
-//@ ensures [C01.trunc-sum] len(result) == len(b)+t.length && forall(qk, 0, len(b), result[qk] == old(b[qk])) && hIsDigest(result[len(b):], hState(t.Hash))
+//@ split len(b)+hSizeOf(t.Hash) <= cap(b)
+//@ ensures [C01.trunc-sum-len] len(result) == len(b)+t.length
+//@ ensures [C01.trunc-sum-prefix] forall(qk, 0, len(b), result[qk] == old(b[qk]))
+//@ ensures [C01.trunc-sum] hIsDigest(result[len(b):], hState(t.Hash))
 
 // ---- authenticator.go / hasher.go / confidentiality.go: algorithm tables (IPMI v2.0 tables 13-17..13-19)
 
